@@ -746,7 +746,8 @@ def reset(results=None, overrides=None, eager_executor=True, n_sched=1,
         use_legacy_scheduler(n_sched)
     else:
         from mc import sched_default
-        sched_default.use_default_scheduler(n_sched)
+        sched_default.use_default_scheduler(
+            n_sched, store_checker=(scheduler != 'default_mem'))
     return W
 
 
@@ -986,11 +987,14 @@ def canon_of(dump, extra=None, keep_clock=False):
     pend = sorted(sub(m.desc()) for m in W.msgs)
     acts = sorted(sub(json.dumps(a.descriptor(), default=str, sort_keys=True))
                   for a in W.acts if not a.done)
+    mem = [s.mem_state() for s in SCHEDULERS if hasattr(s, 'mem_state')]
     parts = [
         '\n'.join(rows), '\n'.join(pend), '\n'.join(acts),
         json.dumps(sorted(W.runs.items())),
         json.dumps(extra, sort_keys=True, default=str),
     ]
+    if mem:
+        parts.append(sub(json.dumps(mem, default=str)))
     if keep_clock:
         parts.append(str(W.clock))
     return '\n--\n'.join(parts)
